@@ -488,6 +488,8 @@ def run(ctx):
     check_grid_data_order(ctx, "R20")
     ctx.rule("R21", "WFN / WFX primitive lists are regrouped into shells with the right row permutation (evaluated)", "the px/py/pz coefficients of a contracted shell are attached to each other's primitives")
     check_wfn_build_obasis(ctx, "R21")
+    ctx.rule("R23", "GRO frame: time of the title line, residue / atom columns, positions, velocities and the box are read from their own fields (frame reader evaluated on model frames)", "a negative time or one with an exponent read as another number, velocities taken from the position columns")
+    check_gro_frame(ctx, "R23")
     ctx.rule("R22", "VASP header: scaling factor, element / count expansion, selective-dynamics line, Cartesian or direct coordinates (reader evaluated on model headers)", "the universal scaling factor dropped from the cell or from Cartesian positions, fractional coordinates multiplied from the wrong side, counts attached to other elements")
     check_vasp_header(ctx, "R22")
 
@@ -1468,3 +1470,60 @@ def check_four_index_readers(ctx, rid):
                 continue
         ctx.ok(rid, f"{f.module.short}: a record (1 2|3 4) lands on (0, 2, 1, 3) and its seven symmetry partners only" + ("; one-electron and core records on their own slots" if f.module.short == "fcidump" else ""), f"{f.module.relpath}:{cs.node.lineno}")
     ctx.floor(rid, len(sites), 2, "set_four_index_element call sites")
+
+
+def check_gro_frame(ctx, rid):
+    """`gromacs._helper_read_frame` interpreted on model frames (nanometer standing for 1000, picosecond for 100): two
+    atoms with positions and velocities that all differ, title lines with the time written the ways GROMACS writes it
+    (positive, negative, with an exponent, followed by a step field, absent)."""
+    from ..accessors import AccessorEval, Raised, Rec
+    from ..symarr import NotSymbolic
+
+    prog = ctx.prog
+    f = prog.funcs.get("iodata.formats.gromacs._helper_read_frame")
+    if f is None:
+        raise AnalysisError("gromacs._helper_read_frame not found")
+    licls = prog.cls("iodata.utils.LineIterator")
+    NM, PS = 1000.0, 100.0
+    atoms = [
+        "    1SOL     OW    1   0.126  -1.624   2.679  0.1227 -0.0580  0.0434\n",
+        "   12ALA    HW1    2  -0.190   1.661   0.747  0.8085  0.3191 -0.7791\n",
+    ]
+    pos = np.array([[0.126, -1.624, 2.679], [-0.190, 1.661, 0.747]])
+    vel = np.array([[0.1227, -0.0580, 0.0434], [0.8085, 0.3191, -0.7791]])
+    titles = [
+        ("MD of 2 waters, t= 0.50000\n", 0.5),
+        ("MD of 2 waters, t= -2.50000\n", -2.5),
+        ("MD of 2 waters, t= 1.5e+03\n", 1500.0),
+        ("MD of 2 waters, t=   12.00000\n", 12.0),
+        ("just a title\n", 0.0),
+    ]
+    for title, tval in titles:
+        lines = [title, "    2\n", *atoms, "   1.86206   2.50000   3.25000\n"]
+        lit = Rec(licls, filename="F", fh=iter(lines), lineno=0, stack=[])
+        ev = AccessorEval(prog, licls, limit=20000)
+        ev.module = f.module
+        ev._globals = {("iodata.utils", "nanometer"): NM, ("iodata.utils", "picosecond"): PS}
+        try:
+            res = ev.run_free(f, [lit], {})
+        except Raised as exc:
+            ctx.violate(rid, f"GRO frame with the title `{title.strip()}`: the frame reader raises {exc.args[0]}", f, f.node, construct=f"gro frame: raises for `{title.strip()}`")
+            return
+        except NotSymbolic as exc:
+            raise AnalysisError(f"gromacs._helper_read_frame is outside the evaluation whitelist: {exc}") from exc
+        _title, time, resnums, resnames, attypes, p_, v_, cell = res
+        bad = None
+        if abs(float(time) - tval * PS) > 1e-6 * max(1.0, abs(tval * PS)):
+            bad = f"title `{title.strip()}`: the time is loaded as {float(time) / PS:g} ps, the line says {tval:g} ps"
+        elif [int(x) for x in resnums] != [1, 12] or list(resnames) != ["SOL", "ALA"] or list(attypes) != ["OW", "HW1"]:
+            bad = f"residue numbers / names / atom names come back as {list(resnums)}, {list(resnames)}, {list(attypes)}"
+        elif np.abs(np.asarray(p_, dtype=float) - pos * NM).max() > 1e-3:
+            bad = f"positions come back as {(np.asarray(p_, dtype=float) / NM).round(4).tolist()} nm, the records say {pos.tolist()}"
+        elif np.abs(np.asarray(v_, dtype=float) - vel * NM / PS).max() > 1e-3:
+            bad = f"velocities come back as {(np.asarray(v_, dtype=float) * PS / NM).round(4).tolist()} nm/ps, the records say {vel.tolist()}"
+        elif np.abs(np.asarray(cell, dtype=float) - np.diag([1.86206, 2.5, 3.25]) * NM).max() > 1e-2:
+            bad = f"the box comes back as {(np.asarray(cell, dtype=float) / NM).round(5).tolist()}"
+        if bad:
+            ctx.violate(rid, f"GRO frame: {bad}", f, f.node, construct=f"gro frame: {bad}"[:160])
+            return
+    ctx.ok(rid, f"gromacs: {len(titles)} model frames (time positive / negative / with exponent / absent): time, residue and atom columns, positions, velocities and box come from their own fields, in nm and ps", f"{f.module.relpath}:{f.lineno}")
